@@ -3084,6 +3084,51 @@ def _condition_mutation(f_code, f_ref, all_code=None, all_ref=None, extra=()):
     return False
 
 
+def _free_loads(fn):
+    own = {a.arg for a in fn.args.args + fn.args.posonlyargs + fn.args.kwonlyargs}
+    if fn.args.vararg:
+        own.add(fn.args.vararg.arg)
+    if fn.args.kwarg:
+        own.add(fn.args.kwarg.arg)
+    own |= {n.id for n in ast.walk(fn) if isinstance(n, ast.Name) and isinstance(n.ctx, (ast.Store, ast.Del))}
+    loads = sorted([n for b in fn.body for n in ast.walk(b) if isinstance(n, ast.Name) and isinstance(n.ctx, ast.Load) and n.id not in own],
+                   key=lambda n: (getattr(n, "lineno", 0), getattr(n, "col_offset", 0)))
+    out = []
+    for n in loads:
+        if n.id not in out:
+            out.append(n.id)
+    return out
+
+
+def _locals_of(fn):
+    names = {a.arg for a in fn.args.args + fn.args.posonlyargs + fn.args.kwonlyargs}
+    names |= {n.id for n in ast.walk(fn) if isinstance(n, ast.Name) and isinstance(n.ctx, (ast.Store, ast.Del))}
+    names |= {n.name for n in ast.walk(fn) if isinstance(n, (ast.FunctionDef, ast.AsyncFunctionDef, ast.ClassDef)) and n is not fn}
+    return names
+
+
+def _captured_renaming(code_inner, code_outer, ref_inner, ref_outer):
+    """{code name: reference name} for captured locals of the outer function that exist under one name on one side only
+    (a name both outer functions still have is the same variable: exchanging two captured variables is not a renaming)"""
+    if not all(isinstance(x, (ast.FunctionDef, ast.AsyncFunctionDef)) for x in (code_inner, code_outer, ref_inner, ref_outer)):
+        return {}
+    lc, lr = _locals_of(code_outer), _locals_of(ref_outer)
+    fc = [n for n in _free_loads(code_inner) if n in lc and n not in lr]
+    fr = [n for n in _free_loads(ref_inner) if n in lr and n not in lc]
+    if not fc or len(fc) != len(fr):
+        return {}
+    return dict(zip(fc, fr))
+
+
+def _rename_names(fn, ren):
+    import copy
+    new = copy.deepcopy(fn)
+    for n in ast.walk(new):
+        if isinstance(n, ast.Name) and n.id in ren:
+            n.id = ren[n.id]
+    return new
+
+
 def reference_status(ctx, fi, ref_source, ref_names, int_names=None, leaf=None, keep=(), inline=True):
     """-> (status, details, s_ref, ref_name): how fi relates to the reference transcription(s)"""
     tree = ast.parse(ref_source) if isinstance(ref_source, str) else ref_source
@@ -3147,6 +3192,20 @@ def reference_status(ctx, fi, ref_source, ref_names, int_names=None, leaf=None, 
             s_code = s_code_plain
         s_ref = summarize(ref_node, canon_ref, leaf, keep, init_env=env_ref)
         status, details = compare_summaries(s_code, s_ref)
+        if status != "same" and env_ref is not None:
+            # the closure captures locals of its outer function; when the outer function renamed them, the closure reads the
+            # same as before up to those names and what they hold is the outer function's business: no verdict here
+            ren = _captured_renaming(expanded(ctx, fi), expanded(ctx, fi.parent), ref_node, outer_ref)
+            if ren:
+                try:
+                    node2 = _rename_names(expanded(ctx, fi), ren)
+                    env2 = {ren.get(k, k): v for k, v in (env_code or {}).items()}
+                    st2, _d2 = compare_summaries(summarize(node2, canon_code, leaf, keep, init_env=env2), s_ref)
+                except Exception:
+                    st2 = None
+                if st2 == "same":
+                    status = "unrecognised"
+                    details = [("renamed", "capture", ", ".join(sorted(ren.values())), ", ".join(sorted(ren)), 0.0)]
         if status != "same":
             ns = new_state(s_code, s_ref, getattr(fi.node, "name", ""), tree)
             if ns:
